@@ -183,10 +183,27 @@ def run(scn, ch):
             done = lambda w: w.slot() is None and w.arbiter._stopping       # noqa: E731
         else:
             done = lambda w: w.slot() is None       # noqa: E731
-        why = world.run(until=done, horizon=limit, menu=win.menu)
+        # the window: from the acceptance of X until the daemon is observably idle again.  "X still running"
+        # is judged independently of the slot: a pending sleep of the operation or a worker being stopped.
+        t_end = CLOCK.now + limit
+        why = 'horizon'
+        while CLOCK.now <= t_end:
+            busy = bool(world.extra_timers()) or bool(world.stopping_processes())
+            if done(world) and not busy:
+                why = 'until'
+                break
+            if busy and world.slot() is None and mode != 'sync-fail':
+                res.check('C10.slot_held', False,
+                          'X=%s is still running (pending sleeps %s, stopping %s) but the exclusive slot is free'
+                          % (x, [round(t - CLOCK.now, 3) for t in world.extra_timers()],
+                             [p.pid for p in world.stopping_processes()]), where='util.synchronized')
+                break
+            elif busy:
+                res.ev('C10.slot_held', True)
+            if world.step(win.menu) == 'idle':
+                why = 'until' if done(world) else 'idle'
+                break
         win.open = False
-        res.check('C10.x_ends', why == 'until', lambda: 'X=%s still holds the slot %.1fs later (slot=%r)' % (x, limit, world.slot()),
-                  where='util.synchronized')
         # judge every Y
         for ev, slot, before, after in world.y_records:
             rq = ev.request
